@@ -311,6 +311,13 @@ def write_evidence(prop, tier, seed, mod, index, unit_results, all_obs, extra_re
                "A12 VC generator soundness (differential native run on small inputs each run)"]
     lemma_uses = sorted(set(f"A10 big-operator lemma instance {k} ~ Mathlib {l}" for k, l in bigop.lemma_uses()))
     axioms = sorted(set(f"A10 axiom[{o}]: {w}" for o, _, w in bigop._axioms))
+    lean_log = os.path.join(VERIF, "lean", "Theory.log")
+    lean = "not run (setup_cmd elaborates lean/Theory.lean)"
+    if os.path.exists(lean_log):
+        with open(lean_log) as fh:
+            txt = fh.read()
+        lean = "elaborated without errors by lean 4 + Mathlib" if "LEAN-OK" in txt else "FAILED: " + txt[-300:]
+    trusted.append("A10 big-operator facts restated over Finset in lean/Theory.lean: " + lean)
     trusted += axioms + lemma_uses
     trusted += [f"stub contract (assumed): {s}: {ASSUMED[s]}" for s in stubs_used if s in ASSUMED]
     trusted += list(getattr(mod, "TRUSTED", []))
